@@ -32,6 +32,15 @@ pub fn leaf_edits(v: &Value, r: &mut Rng) -> Vec<(String, Value)> {
                 if s.contains('\n') {
                     variants.push(Value::String(s.replace('\n', "\\n")));
                 }
+                // a control character replaced by each of its neighbours in the escape tables
+                for (a, bs) in [('\u{c}', &['\u{b}', '\u{d}', '\u{8}'][..]), ('\u{b}', &['\u{c}', '\t'][..]), ('\u{8}', &['\u{7}', '\t'][..]), ('\t', &['\n', '\u{8}'][..]),
+                                ('\n', &['\r', '\u{b}'][..]), ('\r', &['\n', '\u{c}'][..]), ('\0', &['\u{1}'][..]), ('\u{1f}', &['\u{1e}', ' '][..]), ('\u{7f}', &['\u{80}'][..])] {
+                    if s.contains(a) {
+                        for b in bs {
+                            variants.push(Value::String(s.replace(a, &b.to_string())));
+                        }
+                    }
+                }
                 if s.contains("\\n") {
                     variants.push(Value::String(s.replace("\\n", "\n")));
                 }
